@@ -87,6 +87,15 @@ Second round:
   -- masking key and masked payload -- are themselves well-formed frames (key = the unmasked ping 89 02 6d 6b,
   then [final empty continuation if a message is open] [text "evil"] [close]), label
   `oversized_frame_embeds_valid_frames`; a third of too_big_single cases keep the plain filler.
+Sixth round ("state carried over"):
+  M16 _PerMessageDeflateDecompressor.decompress stores the lazily created inflater, so under no_context_takeover the
+      window of the previous message survives: a 2nd compressed message that refers back into the 1st one is decoded
+      and delivered instead of failing                                -> C15.delivered_after_violation / C15.not_aborted, seeds 1-3
+      New violation kind stale_context (receiving direction agreed as no_context_takeover; the reference sender keeps ONE
+      LZ77 context for two copies of a text: the 1st is valid and must arrive, the 2nd must be refused), generated in `main`
+      for both roles, single frame or fragmented, outside / after an open fragmented message; the mirror image is a valid
+      dimension (`fresh_context`: takeover agreed, sender resets anyway); deterministic part `takeover_grid` (both roles x
+      4 agreements x text/binary).
 Fifth round:
   M15 _receive_frame: the pre-read max_message_size test skipped for frames of a compressed message
       (`and not self._frame_compressed`): a message that is ABOVE the limit as carried but inflates to at most the limit
@@ -117,6 +126,7 @@ Third round:
   (must arrive) followed by one inflating to limit+1 resp. 10*limit (must be refused, 1009, nothing delivered).
 """
 import struct
+import zlib
 
 from hypothesis import strategies as st
 
@@ -173,6 +183,8 @@ valid_msg_s = st.fixed_dictionaries({
     "compress": st.booleans(),
     "ping_gap": st.booleans(),
     "exact_limit": st.booleans(),
+    # with context takeover agreed, the sender may still start this message from an empty window (legal)
+    "fresh_context": st.sampled_from([False, False, True]),
 })
 
 CTRL = st.sampled_from([wsref.OP_PING, wsref.OP_PONG, wsref.OP_CLOSE])
@@ -208,6 +220,10 @@ violation_s = st.one_of(
               st.lists(st.integers(0, 1000), max_size=2)),
     st.tuples(st.just("too_big_wire_compressed"), st.sampled_from([1, 2, 100, 9000]), st.sampled_from([0, 10, 100]), st.booleans(),
               st.lists(st.integers(0, 1000), max_size=2)),
+    # no_context_takeover agreed for the receiving direction, but the sender KEEPS its LZ77 context: the 2nd message
+    # refers back into the window of the 1st one, which a receiver honouring the agreement no longer has
+    st.tuples(st.just("stale_context"), st.booleans(), st.lists(st.integers(0, 1000), max_size=2)),
+    st.tuples(st.just("stale_context"), st.booleans(), st.lists(st.integers(0, 1000), max_size=2)),
     st.tuples(st.just("corrupt_deflate"), st.sampled_from([b"\xff\xff\xff\xff\xff", b"\x07", b"\x00\x05\x00\xfa\x00", b"\x4a\x4c\x06\x00\x00\xff", b"\x00\x01\x00\x00\x00x"]),
               st.booleans(), st.booleans()),
     st.tuples(st.just("close_bad_utf8"), st.sampled_from([1000, 1001, 3000]), st.sampled_from(sorted(BAD_UTF8))),
@@ -221,7 +237,7 @@ violation_s = st.one_of(
     st.tuples(st.just("len64_msb"), st.sampled_from([0, 1, 3, 125, 126, 65536, 2 ** 62]), st.booleans(), st.booleans()),
     st.tuples(st.just("len64_msb"), st.sampled_from([0, 1, 3, 125, 126, 65536, 2 ** 62]), st.booleans(), st.booleans()),
 )
-NEEDS_DEFLATE = {"too_big_inflated", "too_big_wire_compressed", "corrupt_deflate", "either_rsv1_control"}
+NEEDS_DEFLATE = {"too_big_inflated", "too_big_wire_compressed", "corrupt_deflate", "either_rsv1_control", "stale_context"}
 NEEDS_NO_DEFLATE = {"rsv1_no_deflate"}
 NEEDS_LIMIT = {"too_big_single", "too_big_fragments", "too_big_inflated", "too_big_wire_compressed"}
 
@@ -272,6 +288,8 @@ def encode_valid(enc, m, limit, allow_ping_gap=True):
         gaps = {0: [enc.frame(wsref.OP_PING, gp)]}
         npings = [gp]
     snap = enc.deflater.snapshot() if compress else None
+    if compress and m.get("fresh_context"):
+        enc.deflater.reset()
     wire, info = enc.message(wsref.OP_BINARY if m["binary"] else wsref.OP_TEXT, data, cuts=m["cuts"], compress=compress, gap_frames=gaps)
     if limit is not None and compress and info["wire_len"] > limit:
         # a compressed frame larger than the limit would itself be a size violation: send it plain instead
@@ -471,6 +489,23 @@ def build_violation(enc, v, limit, deflate, inside, head=b"head!"):
         labels.add("wire_above_limit_inflated_%s" % ("at_limit" if pct == 100 else "below_limit"))
         info["size"] = True
         info["adjacent"] = True
+    elif kind == "stale_context":
+        _, binary, cuts = v
+        plain = (b"the window of the previous message; " * 4)[: min(limit or 144, 144)]
+        z = zlib.compressobj(6, zlib.DEFLATED, -15)      # ONE context for both messages
+        c1 = (z.compress(plain) + z.flush(zlib.Z_SYNC_FLUSH))[:-4]    # == what a fresh compressor produces: valid
+        c2 = (z.compress(plain) + z.flush(zlib.Z_SYNC_FLUSH))[:-4]    # a few bytes: a match reaching back into message 1
+        op = wsref.OP_BINARY if binary else wsref.OP_TEXT
+        if inside:
+            data = f(wsref.OP_CONT, b"", fin=True)
+            info["completes_head"] = True
+        else:
+            data = b""
+        data += f(op, c1, rsv1=True)
+        info["prelude_values"] = [plain if binary else plain.decode("utf-8")]
+        frags = wsref.split_at(c2, sorted(len(c2) * c // 1000 for c in cuts))
+        data += b"".join(f(op if i == 0 else wsref.OP_CONT, fr, fin=(i == len(frags) - 1), rsv1=(i == 0)) for i, fr in enumerate(frags))
+        info["adjacent"] = True
     elif kind == "corrupt_deflate":
         _, garbage, binary, split = v
         op = wsref.OP_BINARY if binary else wsref.OP_TEXT
@@ -529,6 +564,12 @@ def normalise(case):
         c["deflate"] = True
     if kind in NEEDS_NO_DEFLATE:
         c["deflate"] = False
+    if kind == "stale_context":
+        # the direction Tornado receives on must have been agreed as no_context_takeover
+        s_nct, c_nct = c.get("nct", (False, False))
+        c["nct"] = (s_nct, True) if c["role"] == "server" else (True, c_nct)
+        if c["limit"] is not None and c["limit"] < 64:
+            c["limit"] = None
     if kind in NEEDS_LIMIT and c["limit"] is None:
         c["limit"] = 300
     if kind in ("too_big_inflated", "too_big_wire_compressed") and c["limit"] < 16:
@@ -943,6 +984,24 @@ def size_grid():
                         yield dict(base, violation=("too_big_wire_compressed", extra, 100, binary, [500] if binary else []))
 
 
+def takeover_grid():
+    """Deterministic: both roles x the 4 context-takeover agreements.  Three compressed copies of one text -- the 2nd
+    back-references the 1st where takeover is agreed, the 3rd starts from an empty window (legal either way) -- must
+    arrive; then, where the receiving direction was agreed as no_context_takeover, a sender that keeps its context
+    anyway (stale_context) must be cut off; elsewhere an RSV2 frame ends the case."""
+    def valid(fresh, binary):
+        return {"binary": binary, "text": "carried over? ", "rep": 5, "cuts": [], "compress": True, "ping_gap": False, "exact_limit": False,
+                "fresh_context": fresh}
+    for role in ("server", "client"):
+        for nct in ((False, False), (False, True), (True, False), (True, True)):
+            receiving_nct = nct[1] if role == "server" else nct[0]
+            for binary in (False, True):
+                viol = ("stale_context", binary, [] if binary else [500]) if receiving_nct else ("rsv23", (0, 1, 0), 1, b"")
+                yield {"role": role, "callback_mode": not binary, "deflate": True, "nct": nct, "limit": None,
+                       "before": [valid(False, binary), valid(False, binary), valid(True, binary)], "inside": False, "head": b"head!", "head_conts": 0,
+                       "violation": viol, "after": [valid(False, binary)], "same_segment": binary, "segs": [], "masks": [b"\x77\x66\x55\x44"]}
+
+
 def length_grid():
     """Deterministic: 64-bit length form with the top bit set, both roles x text/binary x final/non-final x outside /
     inside a fragmented message x low 63 bits in {0,1,3,125,126,65536,2**62}, between two valid messages; plus the
@@ -962,13 +1021,14 @@ def length_grid():
 
 
 PARTS = {"main": run_case, "refcheck": reference_verdict_case, "frames": run_frames_case, "grid": run_frames_case, "size_grid": run_case,
-         "length_grid": run_case}
+         "length_grid": run_case, "takeover_grid": run_case}
 
 
 def main(ctx):
     ctx.run_replays(PARTS)
     ctx.enumerate(size_grid(), run_case, name="size_grid")
     ctx.enumerate(length_grid(), run_case, name="length_grid")
+    ctx.enumerate(takeover_grid(), run_case, name="takeover_grid")
     ctx.explore(case_s, reference_verdict_case, ctx.n(300, 4000), name="refcheck")
     ctx.explore(case_s, run_case, ctx.n(2000, 40000), name="main")
     ctx.explore(frames_case_s, run_frames_case, ctx.n(1000, 30000), name="frames")
